@@ -715,6 +715,61 @@ Proof.
   unfold dims in *. simpl. rewrite Hnames. exact Hn.
 Qed.
 
+(* ------------------------------------------------------------------ broadcast / broadcast_arrays *)
+Lemma broadcast_repeat_wf newaxes : forall o r, WF o -> broadcast_repeat newaxes o = Ok r -> WF r.
+Proof.
+  induction newaxes as [|nx t IH]; intros o r Hw H; cbn [broadcast_repeat] in H; [injection H as <-; exact Hw|].
+  destruct (broadcast_repeat t o) as [o1|] eqn:E1; cbn [bind] in H; [|discriminate].
+  assert (W1 : WF o1) by (eapply IH; eassumption).
+  destruct (find_dim (dims o1) (aname nx)) as [i|]; [|discriminate].
+  destruct (_ && _); [eapply repeat_wf; eassumption | injection H as <-; exact W1].
+Qed.
+Theorem broadcast_wf newaxes a r : ~ In "" (map aname newaxes) -> WF a -> broadcast newaxes a = Ok r -> WF r.
+Proof.
+  intros He Hw H. unfold broadcast, broadcast_with in H.
+  destruct (reshape_plain (map aname newaxes) a) as [o|] eqn:E; cbn [bind] in H; [|discriminate].
+  eapply broadcast_repeat_wf; [|exact H]. eapply reshape_plain_wf; eassumption.
+Qed.
+Lemma pick_axis_fold_name d arrays : forall acc o,
+  (forall c, acc = Ok (Some c) -> aname c = d) ->
+  fold_left (pick_axis_step d) arrays acc = Ok (Some o) -> aname o = d.
+Proof.
+  induction arrays as [|a t IH]; intros acc o Hacc H; cbn [fold_left] in H; [apply Hacc; exact H|].
+  eapply IH; [|exact H]. intros c Hc. unfold pick_axis_step in Hc.
+  destruct acc as [c0|]; cbn [bind] in Hc; [|discriminate].
+  destruct (axis_of a d) as [ax|] eqn:Ea; [|apply Hacc; exact Hc].
+  destruct (_ || _); [|discriminate]. injection Hc as <-.
+  destruct c0 as [cx|]; [|eapply axis_of_name; exact Ea].
+  destruct (_ && _); [eapply axis_of_name; exact Ea | apply Hacc; reflexivity].
+Qed.
+Lemma pick_axes_names arrays axs : pick_axes arrays = Ok axs -> map aname axs = get_dims arrays [].
+Proof.
+  unfold pick_axes. generalize (get_dims arrays []). intros ds. revert axs.
+  induction ds as [|d t IH]; intros axs H; cbn [mapM] in H; [injection H as <-; reflexivity|].
+  destruct (fold_left (pick_axis_step d) arrays (Ok None)) as [[o|]|] eqn:E; cbn [bind] in H; try discriminate.
+  destruct (mapM _ t) as [r'|] eqn:Et; cbn [bind] in H; [|discriminate]. injection H as <-. cbn [map]. f_equal.
+  - eapply pick_axis_fold_name; [|exact E]. intros c Hc. discriminate.
+  - apply IH. reflexivity.
+Qed.
+Theorem broadcast_arrays_wf arrays l : Forall WF arrays -> broadcast_arrays arrays = Ok l -> Forall WF l.
+Proof.
+  intros Hall H. unfold broadcast_arrays in H.
+  destruct (align_dims arrays) as [arrs|] eqn:E1; cbn [bind] in H; [|discriminate].
+  assert (W1 : Forall WF arrs) by (eapply align_dims_wf; eassumption).
+  destruct (pick_axes arrs) as [axs|] eqn:E2; cbn [bind] in H; [|discriminate].
+  assert (Hne : ~ In "" (map aname axs)).
+  { rewrite (pick_axes_names _ _ E2). apply get_dims_nonempty; [intros []|]. eapply Forall_impl; [|exact W1]. intros a [_ [_ He]]. exact He. }
+  eapply (mapM_Forall _ WF WF); [|exact W1 | exact H]. intros x y Hx Hy. eapply broadcast_wf; eassumption.
+Qed.
+Lemma dflt_arr_wf : WF dflt_arr.
+Proof. split; [split; reflexivity | split; [constructor | intros []]]. Qed.
+Lemma nth_ins_wf ins i : Forall WF ins -> WF (nth i ins dflt_arr).
+Proof.
+  intros H. destruct (Nat.lt_ge_cases i (List.length ins)) as [Hi|Hi].
+  - rewrite Forall_forall in H. apply H. apply nth_In. exact Hi.
+  - rewrite nth_overflow by exact Hi. exact dflt_arr_wf.
+Qed.
+
 (* ------------------------------------------------------------------ one step and whole programs *)
 Definition covered (a : darr) (o : op) : bool :=
   match o with
@@ -722,15 +777,17 @@ Definition covered (a : darr) (o : op) : bool :=
   | OReduce _ _ AxNone | OReduce _ _ (AxOne _) | OCum _ _ _ | ODiff _ _ _ _ | OArgExt _ _ | ODropna _ _
   | OGet _ _ _ | OPut _ _ _ _ | OScalarOp _ _ _ _ | ONdarrayOp _ _ | OReindex _ _ _ _ _ _ _ | OReindexAxisObj _ | OReindexLike _
   | OFillna _ _ | OSetna _ | OSetnaMask _ | OPutMask _ _ _ | OTakeAxisLabel _ _ | OTakeAxisPos _ _ | OCompressAxis _ _
-  | OSortAxis _ | OSortAxisKey _ _ | OInterp _ _ _ _ _ | OInterpLike _ _ _ | OSetLabel _ _ _ _ | OSetDims _ | OIdentity => true
+  | OSortAxis _ | OSortAxisKey _ _ | OInterp _ _ _ _ _ | OInterpLike _ _ _ | OSetLabel _ _ _ _ | OSetDims _ | OIdentity
+  | OAlign _ _ _ | OBinop _ _ | OBinopR _ _ | OBroadcastArrays | OBroadcastTo _ => true
+  | OBroadcast axs => negb (existsb (String.eqb "") (map aname axs))
   | ONewaxis n _ _ => negb (String.eqb n "")
   | ORenameAxis r n => match axis_info a r with Ok i => negb (mem_str n (remove_nth i (dims a))) | Err _ => true end
   | _ => false
   end.
 
-Theorem apply_op_wf ins o a v : WF a -> covered a o = true -> apply_op ins o a = Ok v -> WFv v.
+Theorem apply_op_wf ins o a v : Forall WF ins -> WF a -> covered a o = true -> apply_op ins o a = Ok v -> WFv v.
 Proof.
-  intros Hw Hc H. destruct o; simpl in Hc; try discriminate; simpl in H; unfold arr1 in H.
+  intros Hins Hw Hc H. destruct o; simpl in Hc; try discriminate; simpl in H; unfold arr1 in H.
   - destruct (transpose rs a) eqn:E; simpl in H; [|discriminate]. injection H as <-. eapply transpose_wf; eassumption.
   - destruct (swapaxes r1 r2 a) eqn:E; simpl in H; [|discriminate]. injection H as <-. eapply swapaxes_wf; eassumption.
   - destruct (rollaxis r start a) eqn:E; simpl in H; [|discriminate]. injection H as <-. eapply rollaxis_wf; eassumption.
@@ -738,16 +795,24 @@ Proof.
   - destruct (newaxis name v0 pos a) eqn:E; simpl in H; [|discriminate]. injection H as <-.
     eapply newaxis_wf; [|exact Hw | exact E]. intros ->. discriminate.
   - destruct (squeeze r a) eqn:E; simpl in H; [|discriminate]. injection H as <-. eapply squeeze_wf; eassumption.
+  - destruct (broadcast axs a) eqn:E; simpl in H; [|discriminate]. injection H as <-. eapply broadcast_wf; [|exact Hw | exact E].
+    apply negb_true_iff in Hc. intros Hin. apply existsb_str_In in Hin. exact (eq_true_false_abs _ Hin Hc).
+  - destruct (broadcast _ a) eqn:E; simpl in H; [|discriminate]. injection H as <-. eapply broadcast_wf; [|exact Hw | exact E].
+    destruct (nth_ins_wf ins i Hins) as [_ [_ He]]. exact He.
   - eapply getitem_wf; eassumption.
   - destruct (setitem f tol r cast a) eqn:E; simpl in H; [|discriminate]. injection H as <-. eapply setitem_wf; eassumption.
   - destruct (setmask m r cast a) eqn:E; simpl in H; [|discriminate]. injection H as <-. eapply setmask_wf; eassumption.
   - destruct (reindex_axis k news r fill fk raise_error m a) eqn:E; simpl in H; [|discriminate]. injection H as <-. eapply reindex_axis_wf; eassumption.
   - destruct (reindex_to_axis nx a) eqn:E; simpl in H; [|discriminate]. injection H as <-. eapply reindex_to_axis_wf; eassumption.
   - destruct (reindex_like _ a) eqn:E; simpl in H; [|discriminate]. injection H as <-. eapply reindex_like_wf; eassumption.
+  - destruct (align ins j ax sort false) as [l|] eqn:E; simpl in H; [|discriminate]. injection H as <-. simpl. eapply align_wf; eassumption.
+  - destruct (operation o a _) eqn:E; simpl in H; [|discriminate]. injection H as <-. eapply operation_wf; [exact Hw | apply nth_ins_wf; exact Hins | exact E].
+  - destruct (operation o _ a) eqn:E; simpl in H; [|discriminate]. injection H as <-. eapply operation_wf; [apply nth_ins_wf; exact Hins | exact Hw | exact E].
   - destruct (op_scalar o c k reflected a) eqn:E; simpl in H; [|discriminate]. injection H as <-. eapply op_scalar_wf; eassumption.
   - destruct (op_ndarray o w a) eqn:E; simpl in H; [|discriminate]. injection H as <-. eapply op_ndarray_wf; eassumption.
   - destruct (sort_axis r a) eqn:E; simpl in H; [|discriminate]. injection H as <-. eapply sort_axis_wf; eassumption.
   - destruct (axis_info a r) as [i|]; simpl in H; [|discriminate]. destruct (negb _); [discriminate|]. injection H as <-. apply take_axis_pos_wf. exact Hw.
+  - destruct (broadcast_arrays ins) as [l|] eqn:E; simpl in H; [|discriminate]. injection H as <-. simpl. eapply broadcast_arrays_wf; eassumption.
   - destruct ax; try discriminate; unfold reduce_any in H; eapply reduce_wf; eassumption.
   - destruct (cumulative prod skipna r a) eqn:E; simpl in H; [|discriminate]. injection H as <-. eapply cumulative_wf; eassumption.
   - destruct (diff r sc keepaxis n a) eqn:E; simpl in H; [|discriminate]. injection H as <-. eapply diff_wf; eassumption.
@@ -779,14 +844,14 @@ Fixpoint prog_covered (ins : list darr) (ops : list op) (a : darr) : bool :=
   | [] => true
   | o :: t => covered a o && match apply_op ins o a with Ok (VArr b) => prog_covered ins t b | _ => true end
   end.
-Theorem run_ops_wf ins ops : forall a v, WF a -> prog_covered ins ops a = true -> run_ops ins ops a = Ok v -> WFv v.
+Theorem run_ops_wf ins ops : Forall WF ins -> forall a v, WF a -> prog_covered ins ops a = true -> run_ops ins ops a = Ok v -> WFv v.
 Proof.
-  induction ops as [|o t IH]; intros a v Hw Hc H; simpl in H.
+  intros Hins. induction ops as [|o t IH]; intros a v Hw Hc H; simpl in H.
   - injection H as <-. exact Hw.
   - simpl in Hc. apply andb_true_iff in Hc. destruct Hc as [Hc1 Hc2]. destruct t as [|o2 t'].
     + eapply apply_op_wf; eassumption.
     + destruct (apply_op ins o a) as [w|] eqn:E; simpl in H; [|discriminate]. destruct w; try discriminate.
-      apply (IH a0); [apply (apply_op_wf ins o a (VArr a0) Hw Hc1 E) | exact Hc2 | exact H].
+      apply (IH a0); [apply (apply_op_wf ins o a (VArr a0) Hins Hw Hc1 E) | exact Hc2 | exact H].
 Qed.
 
 (* ================================================================== constructors *)
